@@ -294,3 +294,81 @@ def builtin_matrices_are_fresh():
                 ok, detail = False, f"{type(e).__name__}: {e}"
             res.append({"name": f"matrix_is_fresh_per_call_and_deterministic[{name},irf={irf_kind}]", "ok": ok, "detail": detail, "function": f"{type(mc).__module__}:{type(mc).__name__}.calculate_matrix", "strength": "S", "witness": None if ok else detail})
     return res
+
+
+def _builtin_histories(self, tier, seed):
+    """B: the builtin megacomplexes (not the abstract one of the symbolic runs) driven natively through histories of
+    evaluations - same point twice, return after another point, return after an evaluation that raises, a fresh
+    optimizer - the penalty vectors at one point must be *identical* (hidden state in a megacomplex, an IRF or a module
+    would show here)."""
+    import warnings
+
+    import numpy as np
+    import xarray as xr
+
+    from glotaran.builtin.megacomplexes.coherent_artifact import CoherentArtifactMegacomplex
+    from glotaran.builtin.megacomplexes.damped_oscillation import DampedOscillationMegacomplex
+    from glotaran.builtin.megacomplexes.decay import DecayMegacomplex, DecayParallelMegacomplex, DecaySequentialMegacomplex
+    from glotaran.model import Model
+    from glotaran.optimization.optimizer import Optimizer
+    from glotaran.parameter import Parameters
+    from glotaran.project import Scheme
+
+    rng = np.random.default_rng(seed)
+    time, pixel = np.arange(-1, 12, 0.5), np.arange(3.0)
+    irf = {"irf1": {"type": "gaussian", "center": "irf.c", "width": "irf.w"}}
+    shifted = {"irf1": {"type": "multi-gaussian", "center": ["irf.c"], "width": ["irf.w"], "shift": ["irf.s0", "irf.s1", "irf.s2"]}}
+    specs = {
+        "decay_parallel_no_irf": ([DecayParallelMegacomplex], {"megacomplex": {"m": {"type": "decay-parallel", "compartments": ["s1", "s2"], "rates": ["k.1", "k.2"]}}, "dataset": {"d": {"megacomplex": ["m"]}}}),
+        "decay_sequential_irf": ([DecaySequentialMegacomplex], {"megacomplex": {"m": {"type": "decay-sequential", "compartments": ["s1", "s2"], "rates": ["k.1", "k.2"]}}, "irf": irf, "dataset": {"d": {"megacomplex": ["m"], "irf": "irf1"}}}),
+        "decay_general_shifted_irf": ([DecayMegacomplex], {"megacomplex": {"m": {"type": "decay", "k_matrix": ["km"]}}, "k_matrix": {"km": {"matrix": {("s2", "s1"): "k.1", ("s2", "s2"): "k.2"}}}, "initial_concentration": {"j": {"compartments": ["s1", "s2"], "parameters": ["j.1", "j.0"]}}, "irf": shifted, "dataset": {"d": {"megacomplex": ["m"], "irf": "irf1", "initial_concentration": "j"}}}),
+        "oscillation_and_artifact_irf": ([DampedOscillationMegacomplex, CoherentArtifactMegacomplex], {"megacomplex": {"o": {"type": "damped-oscillation", "labels": ["o1"], "frequencies": ["osc.f"], "rates": ["k.1"]}, "a": {"type": "coherent-artifact", "order": 2}}, "irf": irf, "dataset": {"d": {"megacomplex": ["o", "a"], "irf": "irf1"}}}),
+    }
+    pars = {"k": [0.6, 0.15], "irf": [["c", 0.4], ["w", 0.3], ["s0", 0.0], ["s1", 0.05], ["s2", -0.05]], "j": [["1", 1.0, {"vary": False}], ["0", 0.0, {"vary": False}]], "osc": [["f", 3.0]]}
+    out = []
+    for name, (mcs, spec) in specs.items():
+        try:
+            with warnings.catch_warnings():
+                warnings.simplefilter("ignore")
+                model = Model.create_class_from_megacomplexes(mcs)(**spec)
+                parameters = Parameters.from_dict(pars)
+                data = xr.DataArray(rng.normal(size=(len(time), len(pixel))), coords=[("time", time), ("pixel", pixel)]).to_dataset(name="data")
+                scheme = Scheme(model=model, parameters=parameters, data={"d": data}, add_svd=False)
+                opt = Optimizer(scheme, verbose=False, raise_exception=True)
+                # what Optimizer.optimize does before it hands the objective to least_squares
+                opt._free_parameter_labels, x0, _, _ = opt._parameters.get_label_value_and_bounds_arrays(exclude_non_vary=True)
+                labels = list(opt._free_parameter_labels)
+                x0 = np.asarray(x0, dtype=float)
+                x1 = x0 * 1.1 + 0.01
+                xbad = x0.copy()
+                xbad[labels.index("k.1")] = -1e4  # non-finite concentrations: the evaluation raises
+                f0 = np.array(opt.objective_function(x0.copy()), copy=True)
+                bad = []
+                for hist_name, hist in (("repeat", []), ("return", [x1]), ("raise_between", [xbad]), ("raise_then_other", [xbad, x1])):
+                    raised = 0
+                    for x in hist:
+                        try:
+                            opt.objective_function(x.copy())
+                        except Exception:
+                            raised += 1
+                    try:
+                        again = np.array(opt.objective_function(x0.copy()), copy=True)
+                        same = again.shape == f0.shape and np.array_equal(again, f0)
+                    except Exception as e:
+                        same, again = False, repr(e)
+                    if not same:
+                        bad.append({"history": hist_name, "evaluations_that_raised": raised, "penalty_then": f0[:4].tolist(), "penalty_now": again[:4].tolist() if isinstance(again, np.ndarray) else again})
+                opt2 = Optimizer(scheme, verbose=False, raise_exception=True)
+                opt2._free_parameter_labels = list(labels)
+                fresh = np.array(opt2.objective_function(x0.copy()), copy=True)
+                if not np.array_equal(fresh, f0):
+                    bad.append({"history": "fresh_optimizer"})
+            out.append({"name": "bounded_builtin_megacomplexes_penalty_at_a_point_independent_of_history", "ok": not bad, "case": name, "function": "glotaran.optimization.optimizer:Optimizer.objective_function", "witness": {"model": name, "x0": x0.tolist(), "failures": bad} if bad else None, "detail": "native histories on builtin megacomplexes (bounded stand-in)"})
+        except Exception as e:
+            import traceback
+
+            out.append({"name": "bounded_builtin_megacomplexes_penalty_at_a_point_independent_of_history", "ok": False, "case": name, "function": "glotaran.optimization.optimizer:Optimizer.objective_function", "witness": {"model": name, "exception": repr(e), "trace": traceback.format_exc(limit=4)}, "detail": "the stand-in itself failed"})
+    return out
+
+
+NonInterference.bounded_checks = _builtin_histories
